@@ -7,10 +7,58 @@ NOTES = ("Runtime monitoring only: every check runs the real aiokafka code from 
 ENGINES = [
     {"name": "simloop", "path": "vf/simloop.py", "serves_properties": ["C12"],
      "kind_free_text": "virtual-time asyncio loop + in-memory network fabric under the real AIOKafkaConnection/Client"},
+    {"name": "simcluster", "path": "vf/cluster.py",
+     "serves_properties": ["C01", "C02", "C03", "C04", "C05", "C06", "C07", "C08", "C13", "C16", "C19"],
+     "kind_free_text": "in-process simulated Kafka cluster (brokers, partition logs, group and transaction coordinators, "
+                       "seeded fault plan) speaking the real wire protocol through the independent codecs vf/wire.py and "
+                       "vf/refrecords.py; the real producer/consumer objects run on it unmodified in virtual time"},
+    {"name": "wire", "path": "vf/wire.py", "serves_properties": ["C11"],
+     "kind_free_text": "independent table-driven Kafka protocol codec (hand-written tables vf/wire_tables.py)"},
 ]
 SIM_NOTE = ("trusted base: vf/simloop.py (virtual-time loop, FIFO links), the scripted peer / simulated cluster, "
             "and the oracle code; decides only the executions produced")
 CHECKS = {
+    "C01": dict(ready=True, engine="simcluster", level="exploration", design_ref="DESIGN.md §6 C01",
+                technique="runtime monitoring: offline history checker (order / multiplicity / sequence discipline / in-flight "
+                          "overlap) over real producer runs on a fault-injecting simulated cluster",
+                text=("hundreds (quick) to ~10k (thorough) seeded histories of the real AIOKafkaProducer with concurrent senders, "
+                      "13 fault fates on Produce/Metadata, leader moves, stale metadata and sequence counters preset next to "
+                      "the 2^31 wrap; every partition log, every ProduceRequest arrival and every client-side in-flight "
+                      "interval is checked after the run"),
+                note=SIM_NOTE + "; N1 (no delivery after the client failed the request); broker idempotence rules of Kafka 2.x"),
+    "C02": dict(ready=True, engine="simcluster", level="exploration", design_ref="DESIGN.md §6 C02",
+                technique="runtime monitoring: per-future resolution log and flush/stop return events checked against the "
+                          "simulated brokers' partition logs",
+                text=("every future returned by send()/send_batch() in each history is followed to its single resolution and "
+                      "compared with the record actually stored at the named partition/offset (uid, key, headers, timestamp, "
+                      "timestamp type) for produce v0..v7 x CreateTime/LogAppendTime x acks 0/1/all x idempotence; flush()/stop() "
+                      "returns are checked against the set of previously accepted records; bounded resolution after the quiet point"),
+                note=SIM_NOTE + "; N1; LogAppendTime semantics of the simulated broker"),
+    "C03": dict(ready=True, engine="simcluster", level="exploration", design_ref="DESIGN.md §6 C03",
+                technique="runtime monitoring: per-partition reference cursor fed with every getone/getmany/position/seek/pause/"
+                          "resume event of a real consumer over generated logs",
+                text=("real group-less AIOKafkaConsumer over generated v0/v1/v2/mixed logs (compaction gaps, wrappers, control and "
+                      "empty batches, trimmed log start) with 1-3 concurrent API tasks, leader moves and retriable fetch faults; "
+                      "each returned record must be exactly the next visible one from the cursor, position() is bounded on both "
+                      "sides, paused/filtered partitions stay silent and every log is drained after the quiet point; both codec "
+                      "implementations (compiled one rebuilt from the working tree)"),
+                note=SIM_NOTE + "; visibility definition; reference record codec for log generation and ground truth"),
+    "C08": dict(ready=True, engine="simcluster", level="exploration", design_ref="DESIGN.md §6 C08",
+                technique="runtime monitoring: independent isolation reader over generated transactional logs vs. what the real "
+                          "consumer delivers at both isolation levels; fetch-offset stall detector",
+                text=("each generated log (<=4 producers, committed/aborted/open transactions, compaction, solitary abort markers, "
+                      "markers on response boundaries) is consumed at read_committed and read_uncommitted; delivered records are "
+                      "classified against the markers, exactness comes from the cursor oracle, final position must reach LSO/HW"),
+                note=SIM_NOTE + "; aborted-transaction index semantics of the simulated broker"),
+    "C11": dict(ready=True, engine="wire", level="exploration", design_ref="DESIGN.md §6 C11",
+                technique="runtime differential monitoring: library encode/decode vs. an independent table-driven Kafka codec; "
+                          "postconditions on Request.prepare() and on the request builders",
+                text=("every request/response struct reachable from a builder x seeded in-range values (type extremes, nulls, "
+                      "varint boundaries, non-empty tagged fields): byte equality with the independent encoder and decode "
+                      "round-trips; prepare() over every (min,max) pair incl. disjoint; RESPONSE_TYPE schema vs. the response "
+                      "table; statement-named builder parameters either encoded or rejected"),
+                note="trusted base: the hand-written tables in vf/wire_tables.py (written from the Kafka message definitions); "
+                     "structs merely defined but not reachable from a builder are observations only"),
     "C12": dict(ready=True, engine="simloop", level="exploration", design_ref="DESIGN.md §6 C12",
                 technique="runtime monitoring: waiter-outcome oracle over a real AIOKafkaConnection on a virtual-time loop with a scripted faulty peer",
                 text=("thousands of scripted connections per run (pipelining, mixed header forms, timeouts, cancels, every "
